@@ -29,7 +29,10 @@ use rand::{Rng, rng};
 use std::fmt::Debug;
 use std::path::{Path, PathBuf};
 use std::sync::Arc;
+#[cfg(not(datafusion_verif))]
 use std::sync::atomic::{AtomicU64, AtomicUsize, Ordering};
+#[cfg(datafusion_verif)]
+use datafusion_common::verif::atomic::{AtomicU64, AtomicUsize, Ordering};
 use tempfile::{Builder, NamedTempFile, TempDir};
 pub const DEFAULT_MAX_TEMP_DIRECTORY_SIZE: u64 = 100 * 1024 * 1024 * 1024; // 100GB
 pub const DEFAULT_MAX_SPILL_MERGE_FAN_IN: usize = 0;
